@@ -1,46 +1,233 @@
 import Anything.Model.Cli
 import Anything.Props.C12
-import Anything.Lemmas.EvalSat
-import Anything.Lemmas.EvalSpans
-import Anything.Lemmas.EvalRound
+import Anything.Lemmas.EvalCtx
+/-!
+# C11 — any input yields values or located errors, never a crash
+
+The model of the whole pipeline is `Eval.query cfg src`: `Grammar.parseRoot src`, then
+`queryLoop` runs `eval` on every root child that is not white space. The model makes every
+way of crashing an explicit outcome:
+
+* the parser's `BErr` (builder misuse, the model's own parser fuel) — `C11_parse_total`
+  (from C12) shows it never happens, so `query` always returns a list of results
+  (`C11_query_total`);
+* `EvalErr.panic "fuel"`, the model's own recursion fuel — `C11_no_fuel_panic` shows that
+  `2 * size` fuel is enough for every tree whatsoever (`queryLoop` passes `2 * size + 2`): the
+  recursion only descends into children and along operator chains, both counted by `size`
+  (`Lemmas/EvalSat.lean`, `sat_all`);
+* `EvalErr.panic "round debug_assert"` — `C11_round_no_assert`: unreachable for ALL arguments,
+  because the value returned for a digit count `n ≤ 0` is an integer (C10);
+* `EvalErr.panic "Compound::new zero power"` — `C11_mul_no_assert`: `Compound::mul` never
+  leaves an entry with power zero when the units involved are units of the table
+  (`Lemmas/MulZero.lean`); `C11_mul_assert_needs_known` shows the hypothesis is needed.
+
+`C11_spans` locates every error: its byte range is ordered, lies inside the input and both
+ends are token boundaries of the input, hence character boundaries (`C11_boundary_char`), so
+the diagnostic renderer can always slice and underline it. `C11_no_panic` and `C11_results`
+put everything together.
+
+**Bounds.** The informal property bounds the input ("up to 40 tokens, exponents up to 3
+digits, powers up to 2 digits"). That bound is about resources — `i32` overflow of unit
+powers and prefixes, and running time / memory of huge powers — which the model's unbounded
+`Int` and `Rat` do not exhibit (`Model/Compound.lean` says so); the theorems below therefore
+hold for ALL inputs and no hypothesis is invented for the bound. The differential harness
+keeps its generators inside the bound.
+
+**Database.** The evaluator is parameterised by the constants database `cfg.db`. In a
+build with debug assertions the zero-power assertion is discharged by tracking that every
+unit that occurs is a unit of the table, so `C11_no_panic` assumes this of the constants the
+database returns (`DbKnown`); in a release build (`cfg.debug = false`) nothing is assumed.
+`sin`/`cos` go through `f64` and are outside the model (`EvalErr.unsupported`).
+-/
 
 namespace Anything.Props.C11
 open Anything Anything.Eval
 
-/-- **C11 (parsing never fails).** -/
+/-! ## Parsing -/
+
+/-- **C11 (parsing never fails).** Every source string parses to a forest (corollary of
+`C12_parse_total`): neither a builder error nor the parser's fuel. -/
 theorem C11_parse_total (src : List Char) : ∃ forest, Grammar.parseRoot src = .ok forest :=
   C12.C12_parse_total (Lexer.lex src)
 
-/-- **C11 (the rounding assertion is unreachable).** -/
+/-- **C11 (a result list always exists).** -/
+theorem C11_query_total (cfg : Cfg) (src : List Char) :
+    ∃ res log, Eval.query cfg src = .ok (res, log) := by
+  obtain ⟨forest, h⟩ := C11_parse_total src
+  exact ⟨(queryLoop cfg (kidsAt 0 forest) []).1, (queryLoop cfg (kidsAt 0 forest) []).2,
+    by simp only [Eval.query, h]⟩
+
+/-! ## The rounding assertion -/
+
+/-- **C11 (the rounding assertion is unreachable).** `builtinRound` never panics, whatever
+the arguments, the span and the build: `debug_assert!(n > 0 || value.denom() == 1)` holds for
+the value it is about to return. -/
 theorem C11_round_no_assert (cfg : Cfg) (s e : Nat) (args : List Numeric) (d : List Desc)
     (site : String) : (builtinRound cfg s e args d).1 ≠ .error (.panic site) := by
-  rcases builtinRound_cases cfg s e args d with ⟨k, h⟩ | ⟨v, h, -⟩ <;> rw [h] <;> intro hh <;> cases hh
+  rcases builtinRound_cases cfg s e args d with ⟨k, h⟩ | ⟨v, h, -⟩ <;> rw [h] <;> intro hh <;>
+    cases hh
 
-def NotFuel : EvalErr → Prop
-  | .panic site => site ≠ "fuel"
-  | _ => True
+/-- Non-vacuity: the assertion is really evaluated on this path (debug build, two
+arguments, negative digit count, non-integer first argument) and the result is a value. -/
+example : ((builtinRound { db := fun _ => .nothing } 0 0
+    [{ value := 12345 / 10, unit := [] }, { value := -2, unit := [] }] []).1.toOption.map
+      (fun v => v.value)) = some 1200 := by
+  decide +kernel
 
-theorem ctx_fuel (cfg : Cfg) : Ctx cfg NotFuel (fun _ => True) (fun _ => True) (fun _ => True) where
-  kids := fun _ _ _ _ => trivial
-  perr := fun _ _ _ => trivial
-  unsup := fun _ => trivial
-  unil := trivial
-  upow := fun _ _ _ => trivial
-  kparse := fun _ _ _ _ _ => trivial
-  uupd := fun _ _ _ _ _ _ _ _ => trivial
-  udb := fun _ _ _ => trivial
-  umul := by
-    intro x y div l r _ _
-    split
-    · trivial
-    · trivial
-    · show _ ≠ _
-      decide
-  round := fun a args _ _ => sat_round cfg _ _ args (fun _ => trivial) (fun _ _ => trivial)
+/-! ## The model's fuel -/
 
+/-- **C11 (the evaluator's fuel never runs out).** For every tree, located anywhere, every
+configuration and every description log: with the fuel `queryLoop` passes (or more) the
+outcome is not the model's `"fuel"` panic. (`2 * size` already suffices.) -/
 theorem C11_no_fuel_panic (cfg : Cfg) (fuel : Nat) (a : At) (d : List Desc)
     (h : 2 * Eval.size a.t + 2 ≤ fuel) : (eval cfg fuel a d).1 ≠ .error (.panic "fuel") := by
   intro hh
   exact (sat_eval (ctx_fuel cfg) fuel a trivial (by omega) d).1 _ hh rfl
+
+/-- The hypothesis of `C11_no_fuel_panic` cannot simply be dropped: with too little fuel the
+model does report `"fuel"` (here: a parenthesised number evaluated with fuel 1). -/
+example : (eval { db := fun _ => .nothing } 1
+    ⟨0, .node 0 .OPERATION [.node 1 .NUMBER [.tok 2 .NUMBER ['1']]]⟩ []).1.toOption.isNone
+    = true := by
+  decide +kernel
+
+/-! ## Spans -/
+
+/-- `n` is the byte offset of a token boundary of `src`: the total UTF-8 length of the first
+`k` tokens. -/
+def C11_Boundary (src : List Char) (n : Nat) : Prop :=
+  ∃ k, k ≤ (Lexer.lex src).length ∧ n = (((Lexer.lex src).take k).map Token.len).sum
+
+/-- **C11 (token boundaries are character boundaries).** A token boundary is the UTF-8
+length of a prefix of the input's character sequence, so slicing the input there is legal. -/
+theorem C11_boundary_char (src : List Char) (n : Nat) (h : C11_Boundary src n) :
+    ∃ p, p <+: src ∧ n = utf8Len p := by
+  have := boundary_prefix (toks := Lexer.lex src) (n := n) h
+  rwa [C12.C12_cover] at this
+
+/-- **C11 (errors are located).** Every error `.err k s e` among the results of a query has
+an ordered byte range inside the input whose ends are token boundaries: it is the span of a
+node of the parsed forest, whose text is the input (C12). No assumption on the database or
+the build. -/
+theorem C11_spans (cfg : Cfg) (src : List Char) (res : List (Except EvalErr Numeric))
+    (log : List Desc) (h : Eval.query cfg src = .ok (res, log)) (k : ErrKind) (s e : Nat)
+    (hr : .error (.err k s e) ∈ res) :
+    s ≤ e ∧ e ≤ utf8Len src ∧ C11_Boundary src s ∧ C11_Boundary src e := by
+  unfold Eval.query at h
+  split at h
+  · cases h
+  · rename_i forest hp
+    simp only [Except.ok.injEq] at h
+    have hres : res = (queryLoop cfg (kidsAt 0 forest) []).1 := by rw [h]
+    rw [hres] at hr
+    have hloc := loc_root (C12.C12_parse_leaves src forest hp)
+    have hsat := sat_queryLoop (ctx_main cfg (Lexer.lex src) False (fun hf => hf.elim))
+      (kidsAt 0 forest) [] hloc _ hr
+    obtain ⟨h1, h2, h3, h4⟩ : Span (Lexer.lex src) s e := hsat.1 _ rfl
+    refine ⟨h1, ?_, h3, h4⟩
+    rw [← C12.C12_bytes src]
+    exact h2
+
+/-! ## The zero-power assertion of `Compound::mul` -/
+
+/-- Table fact: no derived unit of the table is dimensionless. -/
+theorem C11_table_no_dimensionless : ∀ d ∈ Generated.units, d.dims ≠ [] := by
+  decide +kernel
+
+/-- **C11 (`Compound::mul` never trips `Compound::new`'s assertion).** For compounds made of
+units of the table (`AllKnown`), any non-zero power `n` applied to the right operand
+(`1` for `*`, `-1` for `/`), any values and either build, the outcome is not `zeroPower`:
+`reconstruct` never leaves an entry with power zero. Base entries only move toward zero and
+are erased there; a derived unit is bumped twice only with the same sign
+(`Lemmas/MulZero.lean`). The operands may even contain zero-power entries. -/
+theorem C11_mul_no_assert (debug : Bool) (a b : Compound) (n : Int) (l r : Rat) (hn : n ≠ 0)
+    (ha : AllKnown a) (hb : AllKnown b) : Compound.mul debug a b n l r ≠ .error .zeroPower :=
+  mul_no_zeroPower debug a b n l r hn (allKnown_hasBases ha) (allKnown_hasBases hb)
+
+/-- Is the outcome the zero-power assertion? -/
+def C11_isZeroPower {α : Type} : Except CErr α → Bool
+  | .error .zeroPower => true
+  | _ => false
+
+/-- The hypothesis of `C11_mul_no_assert` is needed: a derived key that is not in the table
+has no base dimensions, `bases_match` then accepts any count, and `x / x` leaves the entry
+with power zero. (Such keys cannot be written by a user: `Lemmas/KnownUnits.lean`,
+`parse_known`.) -/
+theorem C11_mul_assert_needs_known :
+    C11_isZeroPower (Compound.mul true [(.derived 0, ⟨1, 0⟩)] [(.derived 0, ⟨1, 0⟩)] (-1) 1 1)
+      = true := by
+  decide +kernel
+
+/-- Non-vacuity of `C11_mul_no_assert`: `N / N` (newton is `kg⋅m/s²` in the table) runs
+through `reconstruct` twice with opposite signs and ends with the empty unit. -/
+example : AllKnown [(.derived 353022001, ⟨1, 0⟩)] ∧
+    ((Compound.mul true [(.derived 353022001, ⟨1, 0⟩)] [(.derived 353022001, ⟨1, 0⟩)] (-1) 1 1
+      ).toOption.map (fun r => r.1)) = some [] := by
+  refine ⟨?_, by decide +kernel⟩
+  intro e he
+  simp only [List.mem_singleton] at he
+  subst he
+  decide +kernel
+
+/-! ## No panic at all -/
+
+/-- **C11 (no panic).** No result of a query is a panic: in a release build for every
+database, in a debug build for every database whose constants carry units of the table.
+Together with `C11_query_total` and `C11_spans` this is the property for the model. -/
+theorem C11_no_panic (cfg : Cfg) (src : List Char)
+    (hdb : cfg.debug = false ∨ DbKnown cfg.db)
+    (res : List (Except EvalErr Numeric)) (log : List Desc)
+    (h : Eval.query cfg src = .ok (res, log)) (site : String) :
+    .error (.panic site) ∉ res := by
+  intro hr
+  unfold Eval.query at h
+  split at h
+  · cases h
+  · rename_i forest hp
+    simp only [Except.ok.injEq] at h
+    have hres : res = (queryLoop cfg (kidsAt 0 forest) []).1 := by rw [h]
+    rw [hres] at hr
+    have hloc := loc_root (C12.C12_parse_leaves src forest hp)
+    have hctx := ctx_main cfg (Lexer.lex src) True (fun _ hd => by
+      rcases hdb with h | h
+      · rw [h] at hd; cases hd
+      · exact h)
+    exact (sat_queryLoop hctx (kidsAt 0 forest) [] hloc _ hr).1 _ rfl trivial
+
+/-- **C11 (the property for the model).** Every input yields a list of results, each of
+which is a value, or an error with a kind and a byte range inside the input on character
+boundaries, or the `unsupported` marker of `sin`/`cos` (outside the model). -/
+theorem C11_results (cfg : Cfg) (src : List Char) (hdb : cfg.debug = false ∨ DbKnown cfg.db) :
+    ∃ res log, Eval.query cfg src = .ok (res, log) ∧ ∀ r ∈ res,
+      (∃ v, r = .ok v) ∨
+      (∃ k s e, r = .error (.err k s e) ∧ s ≤ e ∧ e ≤ utf8Len src ∧
+        (∃ p, p <+: src ∧ s = utf8Len p) ∧ (∃ p, p <+: src ∧ e = utf8Len p)) ∨
+      (∃ w, r = .error (.unsupported w)) := by
+  obtain ⟨res, log, h⟩ := C11_query_total cfg src
+  refine ⟨res, log, h, fun r hr => ?_⟩
+  match r, hr with
+  | .ok v, _ => exact Or.inl ⟨v, rfl⟩
+  | .error (.err k s e), hr =>
+    obtain ⟨h1, h2, h3, h4⟩ := C11_spans cfg src res log h k s e hr
+    exact Or.inr (Or.inl ⟨k, s, e, rfl, h1, h2, C11_boundary_char src s h3,
+      C11_boundary_char src e h4⟩)
+  | .error (.panic site), hr => exact absurd hr (C11_no_panic cfg src hdb res log h site)
+  | .error (.unsupported w), _ => exact Or.inr (Or.inr ⟨w, rfl⟩)
+
+/-- **C11 (what the binary prints).** The result loop of the CLI turns every result into a
+printed line or a diagnostic; it never has to report a panic. -/
+theorem C11_render (cfg : Cfg) (src : List Char) (hdb : cfg.debug = false ∨ DbKnown cfg.db)
+    (res : List (Except EvalErr Numeric)) (log : List Desc)
+    (h : Eval.query cfg src = .ok (res, log)) (exact : Bool) :
+    ∀ item ∈ Cli.render exact res, (∃ t, item = .line t) ∨ (∃ k s e, item = .diagnostic k s e) ∨
+      (∃ w : String, item = .other s!"unsupported {w}") := by
+  intro item hi
+  simp only [Cli.render, List.mem_map] at hi
+  obtain ⟨r, hr, rfl⟩ := hi
+  match r, hr with
+  | .ok v, _ => exact Or.inl ⟨_, rfl⟩
+  | .error (.err k s e), _ => exact Or.inr (Or.inl ⟨k, s, e, rfl⟩)
+  | .error (.panic site), hr => exact absurd hr (C11_no_panic cfg src hdb res log h site)
+  | .error (.unsupported w), _ => exact Or.inr (Or.inr ⟨w, rfl⟩)
 
 end Anything.Props.C11
